@@ -7,4 +7,5 @@ Require Import ExtrOcamlBasic.
 Extraction Language OCaml.
 Extraction "msm_model.ml" run run_op build init_rnode snapshot default_fuel doc_order seqn flags_snapshot
   parse_row cleanup_token parse_action count_actions count_transitions
-  sstep wf_op init_store destroy_all cells.
+  sstep wf_op init_store destroy_all cells
+  run_wop init_world.
